@@ -456,6 +456,20 @@ def translate_jobstate(repo):
 JOBUTIL_KNOWN = {}
 
 
+def translate_registry(repo):
+    """threading Scheduler.delete_job / delete_jobs / get_jobs / jobs"""
+    import py2v_reg as R
+    path = os.path.join(repo, "scheduler/threading/scheduler.py")
+    CURFILE[0] = path
+    tree = ast.parse(open(path).read())
+    tags = [("tags", "option (list Z)"), ("any_tag", "bool")]
+    out = [R.method(tree, "delete_job", "reg_delete_job", [("job", "pytagjob")], "unit"),
+           R.method(tree, "delete_jobs", "reg_delete_jobs", tags, "int"),
+           R.method(tree, "get_jobs", "reg_get_jobs", tags, "set"),
+           R.method(tree, "jobs", "reg_jobs", [], "set")]
+    return HEADER % path + "From Gen Require Import GenSelect.\n\n" + "\n".join(out)
+
+
 def translate_once(repo):
     """Scheduler.once() of both front ends (+ JOB_TYPE_MAPPING of base/definition.py)"""
     import py2v_once as N
@@ -593,7 +607,7 @@ def main():
     sys.path.insert(0, os.path.dirname(os.path.abspath(__file__)))
     for fname, fn in (("GenTimer.v", translate_timer), ("GenJobState.v", translate_jobstate),
                       ("GenJobUtil.v", translate_jobutil), ("GenSelect.v", translate_select),
-                      ("GenJobInit.v", translate_jobinit), ("GenSched.v", translate_sched), ("GenOnce.v", translate_once)):
+                      ("GenJobInit.v", translate_jobinit), ("GenSched.v", translate_sched), ("GenOnce.v", translate_once), ("GenRegistry.v", translate_registry)):
         try:
             text = fn(repo)
             with open(os.path.join(outdir, fname), "w") as fh:
